@@ -1,12 +1,11 @@
 (* C13 — range formatting is safe to splice: range arithmetic, node cover, refusal. *)
-From TV Require Import Partial PartialProofs.
+From TV Require Import Conv Partial PartialProofs SafeBound RangeTotal.
 
 Section Full.
   Variable parse : str -> tree.
   Variable skel : tree -> list N.
   Variable swidth : str -> N.
-  (* not proved: that the spliced text re-parses to an equivalent tree (needs the parser; cf. C01) and that no
-     converter Panic site is reachable (cf. C05) *)
+  (* not proved: that the spliced text re-parses to an equivalent tree (needs the parser; cf. C01) *)
   Definition C13_full : Prop :=
     forall cfg src a b r1 r2 out pre mid post,
       format_range swidth cfg (parse src) a b = ROk r1 r2 out ->
@@ -100,3 +99,23 @@ Definition ex_let : tree :=
 Example C13_example :
   format_range (fun s => N.of_nat (length s)) CliGen.cfg_default ex_let 0 100 = ROk 0 11 [35;108;101;116;32;120;32;61;32;49;10].
 Proof. vm_compute. reflexivity. Qed.
+
+(* (6) range formatting of a schema-conforming tree (SafeBound.swfc, evaluated by the check on every parsed tree)
+   answers with text or the refusal for every request a <= b on char boundaries: no Panic site of the range
+   arithmetic, the indentation lookup or the converters is reachable and the renderer's fuel suffices *)
+Theorem C13_range_total :
+  forall swidth cfg (t : tree) a b,
+    let s := into_text t in
+    let len := byte_len s in
+    (on_boundary s a \/ len <= a) -> (on_boundary s b \/ len <= b) -> a <= b ->
+    swfc t = true ->
+    format_range swidth cfg t a b = RErr \/ exists r1 r2 out, format_range swidth cfg t a b = ROk r1 r2 out.
+Proof. exact format_range_total. Qed.
+Check C13_range_total :
+  forall swidth cfg (t : tree) a b,
+    let s := into_text t in
+    let len := byte_len s in
+    (on_boundary s a \/ len <= a) -> (on_boundary s b \/ len <= b) -> a <= b ->
+    swfc t = true ->
+    format_range swidth cfg t a b = RErr \/ exists r1 r2 out, format_range swidth cfg t a b = ROk r1 r2 out.
+Print Assumptions C13_range_total.
